@@ -502,6 +502,47 @@ def r9(p, rep):
         rep.add("C01.R9", f"{m.qualname}:concatenated-axis-pick", f"{m.module.rel}:{a.lineno}", ok, f"takes the {sel} concatenated axis" if ok else f"{m.name} takes the {sel} concatenated axis of an expression, {picks[0][0].name} the {ref} one: with two concatenations in one expression ('(a + b) (c + d)') the pieces are produced in one nesting order and consumed in the other, so blocks end up swapped (silently when the block sizes allow the final reshape)")
 
 
+def r10(p, rep):
+    rep.rule("C01.R10", "a loop over adjacent pairs / windows of a sequence covers all of them: range(len(xs) - k) with xs[i + m] needs k == m", "bounds lint (window width vs range bound)", floor=2)
+    n = 0
+    for f in p.funcs.values():
+        for node in walk_no_nested(f.node):
+            gens = []
+            if isinstance(node, (ast.ListComp, ast.SetComp, ast.GeneratorExp, ast.DictComp)):
+                gens = [(g.target, g.iter, node) for g in node.generators]
+            elif isinstance(node, ast.For):
+                gens = [(node.target, node.iter, node)]
+            for tgt, it, body in gens:
+                if not (isinstance(tgt, ast.Name) and isinstance(it, ast.Call) and isinstance(it.func, ast.Name) and it.func.id == "range" and len(it.args) == 1):
+                    continue
+                b = it.args[0]
+                k, seq = None, None
+                if isinstance(b, ast.BinOp) and isinstance(b.op, ast.Sub) and isinstance(b.right, ast.Constant) and isinstance(b.right.value, int) and isinstance(b.left, ast.Call) and norm(b.left.func) == "len" and b.left.args:
+                    k, seq = b.right.value, norm(b.left.args[0])
+                elif isinstance(b, ast.Call) and norm(b.func) == "len" and b.args:
+                    k, seq = 0, norm(b.args[0])
+                if seq is None:
+                    continue
+                offs = []
+                simple = True
+                for x in ast.walk(body):
+                    if isinstance(x, ast.Subscript) and norm(x.value) == seq:
+                        sl = x.slice
+                        if isinstance(sl, ast.Name) and sl.id == tgt.id:
+                            offs.append(0)
+                        elif isinstance(sl, ast.BinOp) and isinstance(sl.op, ast.Add) and isinstance(sl.left, ast.Name) and sl.left.id == tgt.id and isinstance(sl.right, ast.Constant) and isinstance(sl.right.value, int):
+                            offs.append(sl.right.value)
+                        elif any(isinstance(y, ast.Name) and y.id == tgt.id for y in ast.walk(sl)):
+                            simple = False
+                if not simple or not offs or max(offs) == 0:
+                    continue
+                n += 1
+                m = max(offs)
+                ok = k == m
+                rep.add("C01.R10", f"{f.qualname}:window({seq})", f"{f.module.rel}:{it.lineno}", ok, f"range(len({seq}) - {k}) with {seq}[i + {m}]: all windows are visited" if ok else (f"range(len({seq}) - {k}) but the body reads {seq}[i + {m}]: " + ("the last window(s) are never compared (e.g. the last pair of bracketed axes is not checked for adjacency, so a needed transpose is skipped)" if k > m else "the last iteration indexes past the end (IndexError)")))
+    return n
+
+
 def run(p, rep, tier):
     r1(p, rep)
     r2(p, rep)
@@ -511,6 +552,7 @@ def run(p, rep, tier):
     r7(p, rep)
     r8(p, rep)
     r9(p, rep)
+    r10(p, rep)
     from . import c05, c14
 
     rep.rule("C05.R1", "merged transpose = inner permutation indexed by the outer permutation", "T-DER [S]", floor=1)
